@@ -151,7 +151,11 @@ func getClientRoles(claims *accessClaims) []string {
 		if roles, ok = accessMap["roles"]; !ok {
 			continue
 		}
-		for _, role := range roles.([]interface{}) {
+		roleList, ok := roles.([]interface{})
+		if !ok {
+			continue
+		}
+		for _, role := range roleList {
 			clientRoles = append(clientRoles, fmt.Sprintf("%s:%s", clientName, role))
 		}
 	}
